@@ -109,7 +109,10 @@ func (w *Worker) fallback(pc []*Term, more []*Term, syms []*Term, extra string, 
 	to := time.Duration(timeoutS) * time.Second
 	t0 := time.Now()
 	defer func() { w.sstats.Time += time.Since(t0) }()
-	for _, kind := range []string{"z3", "cvc5", "z3-new"} {
+	if d := os.Getenv("GOSYM_DUMP"); d != "" {
+		os.WriteFile(fmt.Sprintf("%s/q%d.smt2", d, time.Now().UnixNano()), []byte(script), 0644)
+	}
+	for _, kind := range []string{"z3", "cvc5-int", "cvc5", "z3-new"} {
 		rr, mm, _ := OneShot(kind, script, to, syms)
 		w.run.mu.Lock()
 		w.run.Fallbacks++
